@@ -572,10 +572,14 @@ def parseGate1 (g : String) : Option Run.Gate :=
   else (natArg g).map .bytes
 
 def parseGate (g : String) : Option Run.Gate :=
-  match g.splitOn "&" with
-  | [a] => parseGate1 a
-  | [a, b] => do some (.both (← parseGate1 a) (← parseGate1 b))
-  | _ => none
+  -- `a&b&c…`: right-nested conjunction
+  match (g.splitOn "&").reverse with
+  | [] => none
+  | last :: rest => do
+    let mut acc ← parseGate1 last
+    for a in rest do
+      acc := .both (← parseGate1 a) acc
+    some acc
 
 def parseSegs (s : String) : Option (List (Run.Gate × Bytes)) :=
   if s == "-" then some [] else
